@@ -393,13 +393,17 @@ def r_val(v, lay):
 
 
 def r_list(vals, lay):
+    if not vals:
+        return ""
     return ("," + lay.sp(True)).join(r_val(v, lay) for v in vals)
 
 
 def r_args(a, lay):
     parts = [r_val(v, lay) for v in a["pos"]]
     for k, v in a["kw"]:
-        if v[0] == "list":
+        if v[0] == "list" and not v[1]:
+            parts.append(k + lay.sp(False) + "=" + lay.sp(False) + "[" + lay.sp(False) + "]")
+        elif v[0] == "list":
             parts.append(k + lay.sp(False) + "=" + lay.sp(False) + "[" + lay.sp(False) + r_list(v[1], lay) + lay.sp(False) + "]")
         else:
             parts.append(k + lay.sp(False) + "=" + lay.sp(False) + r_val(v, lay))
@@ -1187,7 +1191,7 @@ def gen_template(rng, cfg=None):
     script, scope = gen_script(rng, cfg)
     npar = rng.randrange(1, 5)
     pool = list(PAR_NAMES)
-    if cfg.get("no_pnames", True):
+    if cfg.get("no_pnames", False):
         pool = [p for p in pool if not is_pname(p)]
     names = rng.sample(pool, npar)
     leaves = [("par", n) for n in names]
